@@ -93,11 +93,17 @@ struct Report
         }
         nontrivial.insert(fp);
     }
+    // keeps the 1st, 2nd, 4th, 8th, ... occurrence of a class (the most recent `per_class` of those), so that samples are
+    // spread over the run instead of being the degenerate size-0 cases rapidcheck starts with
+    std::map<std::string, uint64_t> sample_seen;
     void sample(const std::string& klass, const std::string& s, size_t per_class = 3)
     {
         if (frozen) return;
+        uint64_t n = ++sample_seen[klass];
+        if (n & (n - 1)) return;
         auto& v = samples[klass];
-        if (v.size() < per_class) v.push_back(s);
+        v.push_back(s);
+        if (v.size() > per_class) v.erase(v.begin());
     }
     bool fail(const std::string& sig, const std::string& msg)
     {
